@@ -80,6 +80,13 @@ func init() {
 				jobs = append(jobs, concJob("staleGet("+o+")‖Refresh/"+ex, cfg, []string{"set 1", "adv 50"}, [][]string{{"load 1 " + o}, {"refresh 1 val"}}, []string{"refresh-results", "refresh-readers", "audit"}, "native", 12, true, 4, 60, "refresh-results"))
 				jobs = append(jobs, concJob("Refresh("+o+")‖Refresh/"+ex, cfg, []string{"set 1"}, [][]string{{"refresh 1 " + o}, {"refresh 1 val"}}, []string{"refresh-results", "audit"}, "native", 12, true, 4, 60, "refresh-results"))
 				jobs = append(jobs, concJob("missGet("+o+")‖Refresh/"+ex, cfg, nil, [][]string{{"load 1 " + o}, {"refresh 1 val"}}, []string{"refresh-results", "audit"}, "native", 12, true, 4, 60, "refresh-results"))
+				// a bulk refresh that meets the reload another call is running (it must not disturb that call's result)
+				if o == "val" {
+					for _, second := range []string{"bulkrefresh 1,2 full", "bulkrefresh 1 full"} {
+						jobs = append(jobs, concJob("Refresh‖"+second+"/"+ex, cfg, []string{"set 1", "set 2"}, [][]string{{"refresh 1 val"}, {second}}, []string{"refresh-results", "audit"}, "native", 2, false, 8, 60, "refresh-results"))
+					}
+					jobs = append(jobs, concJob("staleGet‖staleBulkGet/"+ex, cfg, []string{"set 1", "set 2", "adv 50"}, [][]string{{"load 1 val"}, {"bulk 1,2 full"}}, []string{"refresh-results", "refresh-readers", "audit"}, "native", 2, false, 8, 60))
+				}
 				// SetRefreshableAfter while the reload is in flight is not lost (whatever the reload's outcome)
 				for _, rf := range []string{"writing", "creating"} {
 					if o == "nf" {
